@@ -12,6 +12,26 @@ CHECKS['C16'] = dict(
    text="Deductive, exhaustive over the real route table: every handler function (all version overloads, through the real decorators and PlacementWsgify.call_func) is symbolically executed for every microversion and request; on every path the first effectful call is context.can(<the one rule whose documented operations contain this method+path>) with fatal refusal, a refusal leaves as PolicyNotAuthorized with no effect, early exits are only 404/405/406/415. RequestContext.can, PlacementHandler.__call__ (403/404 mapping) and both auth middlewares (401 unless '/') are verified from their bodies; default check strings are proved equivalent to the documented role formulas with z3. Failed obligations are replayed on the real WSGI stack with refused callers / single-rule overrides.",
    note="Trusted: oslo.policy evaluation of check strings, keystonemiddleware, webob.dec.wsgify, routes.Mapper dispatch (A-lib). deploy() stacking order is not yet an obligation.",
    design="4/C16")
+CHECKS['C04'] = dict(
+   text="Deductive typestate over the 15 real write handlers (all version overloads, real decorators) with the object layer under contract and a ghost database: (1) all writes to providers/inventories/allocations/associations of one request lie in one top-level writer transaction; (2) on every exit that raises, the stored core tables equal their value at entry (transaction rolled back, auto-created consumer deleted again; for multi-consumer requests: the clean-up is reached with the created consumers); (3) no core-writing call is swallowed on a success path. Always-on bounded stand-in: 36 rejected requests on the real WSGI stack with table dumps compared.",
+   note="A-txn (enginefacade scopes atomic, nested scopes join), A-nofault, object-layer contracts cross-checked against the bodies only for raise sets and transaction shape; Consumer.delete / update bodies proved (Tier A). For POST /allocations and POST /reshaper the consumers table on error exits is covered by the clean-up typestate, not by table equality.",
+   design="4/C04")
+CHECKS['C05'] = dict(
+   text="Deductive: ResourceProvider.increment_generation proved to be a compare-and-swap (Tier-A SQL semantics of the real UPDATE); the six mutators proved to run as one writer transaction ending in that CAS on their provider; every guarded handler proved, under interference between transactions, to apply its write against exactly the generation in the request body, derived-generation writers against their own read; generation-caused exits are 409 placement.concurrent_update. Bounded stand-in: stale generations and 8 interleavings on the real stack.",
+   note="A-txn, A-nofault, A-key; helper SELECTs of the mutators are contracts (A-sql); reshaper's per-provider guard and 'only the CAS writes the generation column' for the ORM-based save() are covered by the bounded stand-in only.",
+   design="4/C05")
+CHECKS['C06'] = dict(
+   text="Deductive: the real ensure_consumer body, under interference between its transactions, returns an existing consumer only with the carried generation and creates one only for null (this obligation found F4); the allocation-writing handlers hand the write transaction Allocation objects carrying the checked Consumer (found F15); Consumer.increment_generation is a CAS, Consumer.update is guarded and leaves the generation alone. Bounded stand-in: 5 race scenarios on the real stack.",
+   note="A-txn, A-nofault, A-key, A-lib. _set_allocations' per-consumer CAS loop is covered by the C01 script (frame only) and the leaf proof; POST/reshaper list-building loops are havocked (PUT is precise).",
+   design="4/C06")
+CHECKS['C10'] = dict(
+   text="Deductive: every mutator body ends in a successful CAS iff it changed something (set_traits: iff rows written; set_aggregates: iff the flag) and the handlers pass the flag iff microversion >= 1.19; the generation returned equals the stored one; GET handlers reach no write; both increment_generation bodies are exact CASes. Always-on bounded write sequences on the real stack.",
+   note="A-txn, A-nofault; helper SELECTs of mutators by contract; allocation writes bump every visited provider/consumer: loop frames only (C01 script) plus bounded sequences.",
+   design="4/C10")
+CHECKS['C15'] = dict(
+   text="Deductive exception-flow: every real handler (33 operations, all overloads) symbolically executed against schema-shaped inputs (instances generated from the real schema dicts, non-finite numbers included) with the object layer under contract; every exception leaving a handler is a webob 4xx, NotFound or PolicyNotAuthorized. Contract raise-sets are cross-checked against a static raise analysis of the bodies on every run; ensure_consumer's body is checked under interference. Always-on bounded corpus mutation (600 requests) on the real stack.",
+   note="A-lib (jsonschema accepts exactly schema instances), A-nofault, A-heap; string-level query parsing helpers are contracts (bounded by the corpus mutation); PlacementHandler/FaultWrapper/formatter obligations are in C16/C14.",
+   design="4/C15")
 NA = {
  'C17': "quantifies over injected database faults and the retry behaviour of oslo.db/enginefacade; both would have to be assumed, at which point the contract restates the property (DESIGN section 5)",
 }
